@@ -368,91 +368,8 @@ func crcSeedThroughParam(c *Ctx, r *Report, key string, fn *ssa.Function, site s
 		plans = append(plans, plan{hs, gcall, idx})
 	}
 	for _, pl := range plans {
-		g := pl.gcall.Call.StaticCallee()
-		caller := pl.hs.Parent()
-		at := c.pos(pl.hs.Pos())
-		if !before(pl.gcall, pl.hs) {
-			r.bad(key, fnName(fn), at, "the CRC handed to "+fnName(fn)+" comes from "+fnName(g)+", which does not run before it on every path")
+		if dataHelperPlanFails(c, r, key, fn, pl.hs, pl.gcall, pl.idx, argFor(pl.hs.Common(), wp)) {
 			return true
-		}
-		var cwCall *ssa.Call
-		var capture ssa.Instruction
-		why := ""
-		for _, rb := range maySucceedReturns(g) {
-			ret := rb.Instrs[len(rb.Instrs)-1].(*ssa.Return)
-			if pl.idx >= len(ret.Results) {
-				why = "result missing"
-				break
-			}
-			v := resolveLoad(ret.Results[pl.idx])
-			cw, ok := isSum32Of(v)
-			if !ok {
-				why = fnName(g) + " hands back " + exprSig(v, 0) + " at " + c.pos(ret.Pos()) + ", not the running CRC of a hashing writer"
-				break
-			}
-			cc, ok := cw.(*ssa.Call)
-			if !ok || cc.Call.StaticCallee() == nil || fnName(cc.Call.StaticCallee()) != "newCountHashWriter" || (cwCall != nil && cwCall != cc) {
-				why = "the hashing writer whose CRC " + fnName(g) + " hands back is not one it created itself"
-				break
-			}
-			cwCall = cc
-			if ci, ok := v.(ssa.Instruction); ok {
-				capture = ci
-			}
-		}
-		if why == "" && (cwCall == nil || capture == nil) {
-			why = fnName(g) + " has no successful return that hands back a CRC"
-		}
-		if why != "" {
-			r.bad(key, fnName(fn), at, "footer crc is seeded from a value that does not cover the data: "+why)
-			return true
-		}
-		dch, _, gbase := writerChain(cwCall)
-		gp, ok := gbase.(*ssa.Parameter)
-		if !ok || gp.Parent() != g {
-			r.undecided(key, fnName(fn), at, "the hashing writer of "+fnName(g)+" is not placed over a writer it was handed")
-			return true
-		}
-		for _, k := range dch[1:] {
-			if k == "bufio" {
-				r.undecided(key, fnName(fn), at, fnName(g)+" puts a buffer behind its hashing writer; the footer helper cannot share it")
-				return true
-			}
-		}
-		uses, bypass := hashCoverage(c, g, cwCall, capture)
-		if len(bypass) > 0 {
-			r.bad(key, fnName(fn), at, "bytes reach the destination without being hashed", bypass...)
-			return true
-		}
-		if uses == 0 {
-			r.bad(key, fnName(fn), at, "no data is written through the countHashWriter whose CRC seeds the footer")
-			return true
-		}
-		_, _, d1 := writerChain(argFor(&pl.gcall.Call, gp))
-		_, _, d2 := writerChain(argFor(pl.hs.Common(), wp))
-		if d1 != d2 {
-			r.bad(key, fnName(fn), at, "the footer is written to a different destination than the data")
-			return true
-		}
-		for _, b := range caller.Blocks {
-			for _, ins := range b.Instrs {
-				ci, ok := ins.(ssa.CallInstruction)
-				if !ok || ins == ssa.Instruction(pl.hs) || ins == ssa.Instruction(pl.gcall) || !before(ins, pl.hs) {
-					continue
-				}
-				for _, a := range ci.Common().Args {
-					if !isWriterLike(a.Type()) {
-						continue
-					}
-					if _, _, ab := writerChain(a); ab == d1 {
-						if sc := ci.Common().StaticCallee(); sc != nil && (strings.HasPrefix(funcFullName(sc), "bufio.NewWriter") || fnName(sc) == "newCountHashWriter") {
-							continue
-						}
-						r.bad(key, fnName(fn), at, "bytes reach the destination without being hashed", fmt.Sprintf("%s at %s writes to the destination beside %s", calleeFullName(ci.Common()), c.pos(ins.Pos()), fnName(g)))
-						return true
-					}
-				}
-			}
 		}
 	}
 	r.ok(key, fnName(fn), c.pos(site.Pos()), fmt.Sprintf("footer crc = the CRC handed in by the caller, which is the running CRC of the hashing writer through which the data helper wrote everything (%d call site(s)); footer writer chain %v on the same destination", len(plans), fch))
@@ -499,6 +416,20 @@ func init() {
 							if cw, ok := isSum32Of(seed.Val); ok && cw == ssa.Value(wpp) && len(c.callsTo(h)) > 0 {
 								for _, hs := range c.callsTo(h) {
 									seals = append(seals, sealSite{hs, argFor(hs.Common(), fpp), argFor(hs.Common(), wpp), argFor(hs.Common(), wpp)})
+								}
+								lifted = true
+							}
+						}
+					}
+				}
+				if !lifted {
+					// a thin helper that only puts a buffer in front of the writer it is handed and writes
+					// the footer it is handed (no crc assignment of its own): the seal is at its call sites
+					if fpp, ok := fp.(*ssa.Parameter); ok && len(storesToFieldOf(h, fp, "crc")) == 0 && len(c.callsTo(h)) > 0 {
+						if _, _, base := writerChain(wArg); base != nil {
+							if wpp, ok := base.(*ssa.Parameter); ok && wpp.Parent() == h {
+								for _, hs := range c.callsTo(h) {
+									seals = append(seals, sealSite{hs, argFor(hs.Common(), fpp), argFor(hs.Common(), wpp), nil})
 								}
 								lifted = true
 							}
@@ -643,6 +574,24 @@ func init() {
 				{
 					var ok bool
 					cw, ok = isSum32Of(seed.Val)
+					if !ok {
+						// the CRC is the result of a data helper called earlier in this very function
+						var gcall *ssa.Call
+						gidx := 0
+						switch x := seed.Val.(type) {
+						case *ssa.Extract:
+							gcall, _ = x.Tuple.(*ssa.Call)
+							gidx = x.Index
+						case *ssa.Call:
+							gcall = x
+						}
+						if gcall != nil && gcall.Call.StaticCallee() != nil && c.inRoot(gcall.Call.StaticCallee()) && gcall.Call.StaticCallee().Blocks != nil && fnName(gcall.Call.StaticCallee()) != "(*countHashWriter).Sum32" {
+							if !dataHelperPlanFails(c, r, key, fn, site, gcall, gidx, wArg) {
+								r.ok(key, fnName(fn), c.pos(site.Pos()), "footer crc = the running CRC handed back by "+fnName(gcall.Call.StaticCallee())+", which wrote everything through its own hashing writer; the footer goes to the same destination")
+							}
+							continue
+						}
+					}
 					if sp, isParam := seed.Val.(*ssa.Parameter); !ok && isParam && sp.Parent() == fn {
 						// Design D: the footer is written by a helper that is handed the CRC of the data,
 						// taken by a sibling helper that wrote the data through its own hashing writer
@@ -826,6 +775,17 @@ func init() {
 								}
 							}
 							data = append(data, a)
+						}
+						if w == nil && len(call.Call.Args) >= 2 {
+							// a method of a small writer object that holds the writer in a field
+							// (`fw := fieldWriter{w: w}; fw.put(v)`): the writer is what that field was given
+							if hw := writerHeldByReceiver(sc, call.Call.Args[0]); hw != nil {
+								w = hw
+								data = nil
+								for _, a := range call.Call.Args[1:] {
+									data = append(data, a)
+								}
+							}
 						}
 						if w != nil && len(data) > 0 {
 							writes = append(writes, call)
@@ -1953,4 +1913,170 @@ func footerBufferForm(c *Ctx, fn *ssa.Function, footerParam, writerParam *ssa.Pa
 		return "bad", "the footer buffer is written before the CRC was stored into it", c.pos(w.Pos())
 	}
 	return "ok", fmt.Sprintf("%d fields put into one buffer in front of offset %d; crc32.Update(footer.crc, …, buf[:%d]) is stored at %d and the whole buffer is written once", len(puts)-1, hi, hi, hi), at
+}
+
+// writerHeldByReceiver: method writes its non-receiver parameter with
+// binary.Write to a writer it loads from a field of its receiver, and recv (the
+// receiver at the call) is a local struct whose that field was stored exactly
+// one value: that value.
+func writerHeldByReceiver(method *ssa.Function, recv ssa.Value) ssa.Value {
+	if method.Signature.Recv() == nil || len(method.Params) < 2 {
+		return nil
+	}
+	var field *types.Var
+	for _, b := range method.Blocks {
+		for _, ins := range b.Instrs {
+			call, ok := ins.(*ssa.Call)
+			if !ok || call.Call.StaticCallee() == nil || funcFullName(call.Call.StaticCallee()) != "encoding/binary.Write" {
+				continue
+			}
+			wv := call.Call.Args[0]
+			if mi, ok := wv.(*ssa.MakeInterface); ok {
+				wv = mi.X
+			}
+			ld, ok := wv.(*ssa.UnOp)
+			if !ok || ld.Op != token.MUL {
+				return nil
+			}
+			fa, ok := ld.X.(*ssa.FieldAddr)
+			if !ok || fa.X != ssa.Value(method.Params[0]) {
+				return nil
+			}
+			_, fv := fieldAddrInfo(fa)
+			if field != nil && fv != field {
+				return nil
+			}
+			field = fv
+			// what is written is the method's own parameter
+			d := call.Call.Args[2]
+			if mi, ok := d.(*ssa.MakeInterface); ok {
+				d = mi.X
+			}
+			if p, ok := d.(*ssa.Parameter); !ok || p.Parent() != method {
+				return nil
+			}
+		}
+	}
+	if field == nil {
+		return nil
+	}
+	al, ok := recv.(*ssa.Alloc)
+	if !ok || al.Referrers() == nil {
+		return nil
+	}
+	var held ssa.Value
+	for _, ref := range *al.Referrers() {
+		fa, ok := ref.(*ssa.FieldAddr)
+		if !ok || fa.Referrers() == nil {
+			continue
+		}
+		if _, fv := fieldAddrInfo(fa); fv != field {
+			continue
+		}
+		for _, r2 := range *fa.Referrers() {
+			if st, ok := r2.(*ssa.Store); ok && st.Addr == ssa.Value(fa) {
+				if held != nil && held != st.Val {
+					return nil
+				}
+				held = st.Val
+			}
+		}
+	}
+	return held
+}
+
+// dataHelperPlanFails checks one "data helper, then footer write" pair in a
+// caller: g (called before hs) wrote everything through a hashing writer it
+// created over its writer parameter and hands back, as result idx, that
+// writer's running CRC taken after its last write; g and the footer write get
+// the same destination and nothing else writes to it in between.  It reports
+// and returns true when something is wrong.
+func dataHelperPlanFails(c *Ctx, r *Report, key string, fn *ssa.Function, hs ssa.CallInstruction, gcall *ssa.Call, idx int, dest ssa.Value) bool {
+	g := gcall.Call.StaticCallee()
+	caller := hs.Parent()
+	at := c.pos(hs.Pos())
+	if !before(gcall, hs) {
+		r.bad(key, fnName(fn), at, "the CRC handed to "+fnName(fn)+" comes from "+fnName(g)+", which does not run before it on every path")
+		return true
+	}
+	var cwCall *ssa.Call
+	var capture ssa.Instruction
+	why := ""
+	for _, rb := range maySucceedReturns(g) {
+		ret := rb.Instrs[len(rb.Instrs)-1].(*ssa.Return)
+		if idx >= len(ret.Results) {
+			why = "result missing"
+			break
+		}
+		v := resolveLoad(ret.Results[idx])
+		cw, ok := isSum32Of(v)
+		if !ok {
+			why = fnName(g) + " hands back " + exprSig(v, 0) + " at " + c.pos(ret.Pos()) + ", not the running CRC of a hashing writer"
+			break
+		}
+		cc, ok := cw.(*ssa.Call)
+		if !ok || cc.Call.StaticCallee() == nil || fnName(cc.Call.StaticCallee()) != "newCountHashWriter" || (cwCall != nil && cwCall != cc) {
+			why = "the hashing writer whose CRC " + fnName(g) + " hands back is not one it created itself"
+			break
+		}
+		cwCall = cc
+		if ci, ok := v.(ssa.Instruction); ok {
+			capture = ci
+		}
+	}
+	if why == "" && (cwCall == nil || capture == nil) {
+		why = fnName(g) + " has no successful return that hands back a CRC"
+	}
+	if why != "" {
+		r.bad(key, fnName(fn), at, "footer crc is seeded from a value that does not cover the data: "+why)
+		return true
+	}
+	dch, _, gbase := writerChain(cwCall)
+	gp, ok := gbase.(*ssa.Parameter)
+	if !ok || gp.Parent() != g {
+		r.undecided(key, fnName(fn), at, "the hashing writer of "+fnName(g)+" is not placed over a writer it was handed")
+		return true
+	}
+	for _, k := range dch[1:] {
+		if k == "bufio" {
+			r.undecided(key, fnName(fn), at, fnName(g)+" puts a buffer behind its hashing writer; the footer helper cannot share it")
+			return true
+		}
+	}
+	uses, bypass := hashCoverage(c, g, cwCall, capture)
+	if len(bypass) > 0 {
+		r.bad(key, fnName(fn), at, "bytes reach the destination without being hashed", bypass...)
+		return true
+	}
+	if uses == 0 {
+		r.bad(key, fnName(fn), at, "no data is written through the countHashWriter whose CRC seeds the footer")
+		return true
+	}
+	_, _, d1 := writerChain(argFor(&gcall.Call, gp))
+	_, _, d2 := writerChain(dest)
+	if d1 != d2 {
+		r.bad(key, fnName(fn), at, "the footer is written to a different destination than the data")
+		return true
+	}
+	for _, b := range caller.Blocks {
+		for _, ins := range b.Instrs {
+			ci, ok := ins.(ssa.CallInstruction)
+			if !ok || ins == ssa.Instruction(hs) || ins == ssa.Instruction(gcall) || !before(ins, hs) {
+				continue
+			}
+			for _, a := range ci.Common().Args {
+				if !isWriterLike(a.Type()) {
+					continue
+				}
+				if _, _, ab := writerChain(a); ab == d1 {
+					if sc := ci.Common().StaticCallee(); sc != nil && (strings.HasPrefix(funcFullName(sc), "bufio.NewWriter") || fnName(sc) == "newCountHashWriter") {
+						continue
+					}
+					r.bad(key, fnName(fn), at, "bytes reach the destination without being hashed", fmt.Sprintf("%s at %s writes to the destination beside %s", calleeFullName(ci.Common()), c.pos(ins.Pos()), fnName(g)))
+					return true
+				}
+			}
+		}
+	}
+	return false
 }
